@@ -63,6 +63,8 @@ func setupEnv() {
 		environment.SetProcessorsDirectory(filepath.Join(repoDir(),
 			"proxy/src/services/lunar-engine/streams/processors/registry"))
 		context_manager.Get().SetMockClock()
+		// the Retry processor (request capture; suite reload) refuses to be created without it
+		os.Setenv("LUNAR_RETRY_REQUEST_TIMEOUT_SEC", "5")
 	})
 }
 
@@ -111,6 +113,12 @@ func flowYAML(f Flow) string {
 		}
 	}
 	sb.WriteString("processors:\n  probe:\n    processor: Filter\n    parameters:\n      - key: header\n        value: x-never=1\n")
+	if f.needsBody() { // DataSanitation requires the body of the message; declared, not wired into the graph
+		sb.WriteString("  inspect:\n    processor: DataSanitation\n")
+	}
+	if f.needsCapture() { // Retry requires request capture; declared, not wired into the graph
+		sb.WriteString("  again:\n    processor: Retry\n    parameters:\n      - key: attempts\n        value: 1\n")
+	}
 	sb.WriteString("flow:\n  request:\n" + flowDirection + "  response:\n" + flowDirection)
 	return sb.String()
 }
